@@ -767,6 +767,8 @@ class Interp:
                 if d is not None:
                     return d
             return None
+        if isinstance(v, KModel) or (callable(v) and not isinstance(v, type)):
+            return True      # model objects / python callables handed in by a rule
         raise OutsideFragment(f"truth of {type(v).__name__}")
 
     def exec_stmt(self, st, env):
